@@ -1,13 +1,57 @@
-import J5V.Codec.Scalar
+import J5V.Go.Outcome
+import J5V.Compile.Str
 /-!
 # AstValue — `lib/j5reflect/value_ast.go` + `internal/bcl/internal/parser/value.go` (core only)
 
 `scalarReflectFromAST` converts a BCL literal token to the proto scalar of an attribute. The
-integer paths go through `strconv.ParseInt/ParseUint` (model shared with the codec cluster:
-`J5V.Codec.parseInt/parseUint`). Floats are an oracle type and are not modelled here.
+integer paths go through `strconv.ParseInt/ParseUint` (base 10), modelled here on byte strings.
+Floats are an oracle type and are not modelled.
 -/
 namespace J5V.Compile
-open J5V.Go J5V.Codec J5V.Json
+open J5V.Go
+
+abbrev Bytes := Str
+
+/-! ## strconv, base 10 -/
+
+def isDigitB (c : Nat) : Bool := decide (48 ≤ c) && decide (c ≤ 57)
+
+def fmtNatAux : Nat → Nat → Str → Str
+  | 0, _, acc => acc
+  | fuel + 1, n, acc =>
+    if n < 10 then (48 + n) :: acc else fmtNatAux fuel (n / 10) ((48 + n % 10) :: acc)
+
+/-- `strconv.FormatUint(n, 10)` — the text of a decimal literal -/
+def fmtNat (n : Nat) : Str := fmtNatAux (n + 1) n []
+
+def pdStep (acc : Option Nat) (c : Nat) : Option Nat :=
+  match acc with
+  | none => none
+  | some n => if isDigitB c then some (n * 10 + (c - 48)) else none
+
+/-- all bytes ASCII digits, at least one: the value (unbounded) -/
+def parseDigits : Str → Option Nat
+  | [] => none
+  | s => s.foldl pdStep (some 0)
+
+/-- `strconv.ParseUint(s, 10, bits)`; `none` = ErrSyntax / ErrRange -/
+def parseUint (s : Str) (bits : Nat) : Option Nat :=
+  match parseDigits s with
+  | some n => if n < 2 ^ bits then some n else none
+  | none => none
+
+/-- `strconv.ParseInt(s, 10, bits)` -/
+def parseInt (s : Str) (bits : Nat) : Option Int :=
+  match s with
+  | [] => none
+  | c :: rest =>
+    let (neg, body) : Bool × Str :=
+      if c = 43 then (false, rest) else if c = 45 then (true, rest) else (false, s)
+    match parseDigits body with
+    | none => none
+    | some n =>
+      if neg then (if n ≤ 2 ^ (bits - 1) then some (-(n : Int)) else none)
+      else (if n < 2 ^ (bits - 1) then some (n : Int) else none)
 
 /-- BCL token types a `parser.Value` can carry -/
 inductive TokType where
@@ -52,11 +96,12 @@ def asString (t : AstTok) : Outcome Bytes :=
 
 /-- `Value.AsBool()` -/
 def asBool (t : AstTok) : Outcome Bool :=
-  if t.type = .bool then .ok (t.lit = [0x74, 0x72, 0x75, 0x65]) else .err "type"
+  if t.type = .bool then .ok (t.lit = b!"true") else .err "type"
 
-/-- the bit size `scalarReflectFromAST` passes for each integer format — **INT64 passes 32** -/
+/-- the bit size `scalarReflectFromAST` passes for each integer format (INT64 passed 32 until
+`fix: 6beb7c7`) -/
 def astBits : ScalarFmt → Nat
-  | .int32 => 32 | .int64 => 32 | .uint32 => 32 | .uint64 => 64
+  | .int32 => 32 | .int64 => 64 | .uint32 => 32 | .uint64 => 64
   | _ => 0
 
 /-- `scalarReflectFromAST` -/
